@@ -507,6 +507,9 @@ func (fr *Frame) applyContract(c *Contract, sig *types.Signature, recvT types.Ty
 		}
 		vc.externUsed[tag+c.Pkg+"::"+c.Key] = true
 	}
+	if len(c.Callbacks) > 0 {
+		fr.runCallbacks(c, sig, recvT, args, ins)
+	}
 	pre := fr.cur.clone()
 	env := fr.specEnv(pre, pre)
 	env.noLookup = true
@@ -1214,4 +1217,62 @@ func fieldCallKey(v ssa.Value) string {
 		return ""
 	}
 	return "fieldcall:" + n.Obj().Pkg().Path() + "." + n.Obj().Name() + "." + n.Underlying().(*types.Struct).Field(fa.Field).Name()
+}
+
+// runCallbacks models a higher-order extern function ("callback p" in its contract): the closure passed for p is run
+// once, in an arbitrary state (everything unknown code may change is havocked before it) and with arbitrary arguments,
+// under a fresh guard - so every obligation inside the closure body is checked for any invocation - and its effects
+// are discarded afterwards (the callee may invoke it any number of times, including never): heaps are havocked again and
+// every ghost variable the closure body changed is havocked too.
+func (fr *Frame) runCallbacks(c *Contract, sig *types.Signature, recvT types.Type, args []Term, ins ssa.Instruction) {
+	vc := fr.vc
+	off := 0
+	if recvT != nil {
+		off = 1
+	}
+	for _, name := range c.Callbacks {
+		idx := -1
+		for k, pn := range c.Params {
+			if pn == name {
+				idx = k
+			}
+		}
+		if idx < 0 || off+idx >= len(args) {
+			vc.sess.fatalf("contract %s: callback %q is not a parameter", c.Key, name)
+		}
+		ci := vc.sess.closureByID[args[off+idx].S]
+		if ci == nil || ci.fn.Blocks == nil {
+			vc.note("callback argument of " + c.Key + " is not a closure of this function: its body is not examined here")
+			continue
+		}
+		for _, b := range ci.bindVals {
+			delete(fr.unescaped, b.S)
+		}
+		for _, l := range ci.bindLocs {
+			if l != nil {
+				delete(fr.unescaped, fr.rootOf(l.Base).S)
+			}
+		}
+		savedReach := fr.curReach
+		fr.cur = fr.cur.HavocAll(fr.keepList())
+		pre := fr.cur.clone()
+		guard := vc.fresh("cb", SBool)
+		fr.curReach = tAnd(savedReach, guard)
+		var cbArgs []Term
+		ps := ci.fn.Signature.Params()
+		for k := 0; k < ps.Len(); k++ {
+			cbArgs = append(cbArgs, fr.havocVal(ps.At(k).Type(), "cbarg"))
+		}
+		fr.inlineCall(ci.fn, cbArgs, ci, ins)
+		post := fr.cur
+		fr.curReach = savedReach
+		fr.cur = pre
+		for k, v := range post.h {
+			if strings.HasPrefix(k, "ghost_") && pre.Get(k, v.Sort).S != v.S {
+				fr.cur.Havoc(k, v.Sort)
+			}
+		}
+		fr.cur = fr.cur.HavocAll(fr.keepList())
+		vc.assumes["callback "+name+" of "+c.Key+": the closure body is checked for one invocation in an arbitrary state; its effects are discarded (any number of invocations)"] = true
+	}
 }
